@@ -161,9 +161,14 @@ func (fam *family) scenario(c *explore.Ctx) *imp.World {
 	}
 	hintsLast := fam.last && c.Bool()
 	prefix := ""
+	// when the prefix is set: 0 = with the other settings, 1 = after the references, 2 = after the
+	// references and a first render, 3 = set with the other settings, then cleared after the
+	// references and a first render
+	timing := 0
 	if len(fam.prefixes) > 0 {
 		if k := c.Choose(len(fam.prefixes) + 1); k > 0 {
 			prefix = fam.prefixes[k-1]
+			timing = c.Choose(4)
 		}
 	}
 	applySettings := func() {
@@ -187,7 +192,7 @@ func (fam *family) scenario(c *explore.Ctx) *imp.World {
 	if !hintsLast {
 		applySettings()
 	}
-	if prefix != "" && !hintsLast {
+	if prefix != "" && ((!hintsLast && timing == 0) || timing == 3) {
 		w.Prefix(prefix)
 	}
 	pre := fam.preamble
@@ -207,9 +212,17 @@ func (fam *family) scenario(c *explore.Ctx) *imp.World {
 	}
 	if hintsLast {
 		applySettings()
-		if prefix != "" {
-			w.Prefix(prefix)
-		}
+	}
+	switch {
+	case prefix == "":
+	case timing == 0 && hintsLast, timing == 1:
+		w.Prefix(prefix)
+	case timing == 2:
+		w.MidRender()
+		w.Prefix(prefix)
+	case timing == 3:
+		w.MidRender()
+		w.Prefix("")
 	}
 	return w
 }
@@ -249,6 +262,9 @@ func problemKind(msg string) string {
 // renderAnalyze renders the world's File once and analyses the output; problems of rendering
 // itself (error, panic, unparsable output) are returned as a message.
 func renderAnalyze(w *imp.World) (*imp.Analysis, string) {
+	if len(w.MidProblems) > 0 {
+		return nil, shortErr(w.MidProblems[0])
+	}
 	o := w.Render()
 	if !o.OK() {
 		return nil, "render failed: " + shortErr(o.String())
@@ -338,11 +354,16 @@ type impCheck struct {
 	bfsDepth   [2]int // quick, thorough
 	dev        [2]int
 	nontrivial func(a *imp.Analysis, w *imp.World) bool
+	// tolerateFailure: worlds whose render may legitimately fail (then nothing else is judged)
+	tolerateFailure func(w *imp.World) bool
 }
 
 func (ic *impCheck) judgeWorld(w *imp.World) (*imp.Analysis, []string) {
 	a, msg := renderAnalyze(w)
 	if a == nil {
+		if ic.tolerateFailure != nil && strings.HasPrefix(msg, "render failed: ERROR") && ic.tolerateFailure(w) {
+			return nil, nil
+		}
 		return nil, []string{msg}
 	}
 	return a, ic.judge(a, w)
